@@ -44,6 +44,9 @@ os.makedirs(dest, exist_ok=True)
 shutil.copy(patch, os.path.join(dest, 'patch.diff'))
 shutil.copy(demo, os.path.join(dest, 'demo.py'))
 # run our checks against it
+import fcntl
+_lock = open('/tmp/verif-repo.lock', 'w')          # /repo is patched in place: one filing at a time
+fcntl.flock(_lock, fcntl.LOCK_EX)
 rc, o = sh('git -C /repo status --porcelain')
 assert not o.strip(), '/repo not clean'
 rc, o = sh('git -C /repo apply %s' % patch)
